@@ -1930,6 +1930,10 @@ class MapResult(ApplyResult):
         success, result = success_result
         if success:
             self._value[i * self._chunksize:(i + 1) * self._chunksize] = result
+            # this part is finished: its worker no longer owns the job.
+            for j in range(i * self._chunksize,
+                           min((i + 1) * self._chunksize, self._length)):
+                self._worker_pid[j] = None
             self._number_left -= 1
             if self._number_left == 0:
                 if self._callback:
@@ -2021,6 +2025,7 @@ class IMapIterator:
 
     def _set(self, i, obj):
         with self._cond:
+            self._owners.pop(i, None)
             if self._index == i:
                 self._items.append(obj)
                 self._index += 1
@@ -2052,7 +2057,8 @@ class IMapIterator:
         return self._ready
 
     def worker_pids(self):
-        return self._worker_pids
+        # owners of the parts that are still unfinished
+        return list(self._owners.values())
 
     def _sender_of(self, i):
         return self._owners.get(i)
@@ -2066,6 +2072,7 @@ class IMapUnorderedIterator(IMapIterator):
 
     def _set(self, i, obj):
         with self._cond:
+            self._owners.pop(i, None)
             self._items.append(obj)
             self._index += 1
             self._cond.notify()
